@@ -146,7 +146,7 @@ var contractBase = []string{
 
 var propDocs = map[string]propDoc{
 	"C03": {
-		Explanation: "R7 (exhaustive over the 12 operators): Apply returns driver(inputs[0], inputs[1], K, MultidirectionalBroadcasting); K's returned term is the gorgonia kernel of the ONNX table applied to (A,B) in order, or - for And/Or/Xor - a closure whose truth table over {0,1}^2 is evaluated statically (0001/0111/0110); the driver's dynamic call op(x,y) has x from A / #0 and y from B / #1 of broadcast(A,B) in order, and the multidirectional mode runs the multidirectional helper; the boolean loop addresses A, B and the output with the same iterator coordinate. R6.T8 float32/float64/int32/int64 (bool) admitted at both positions. R10 Repeat only under extent==1; R23 the per-axis loops are left only when exhausted or with an error; R22 no (tensor.Shape).Eq in the broadcast path; R20 rank equalisation; R3/R21 operands and attribute state untouched. NOT decided: IEEE/wrap-around values, element placement inside gorgonia.",
+		Explanation: "R7 (exhaustive over the 12 operators): every call of the shared driver in Apply is driver(inputs[0], inputs[1], K, MultidirectionalBroadcasting) and every success return of Apply is the result of such a call (no second path with another kernel or operand); K's returned term is the gorgonia kernel of the ONNX table applied to (A,B) in order, or - for And/Or/Xor - a closure whose truth table over {0,1}^2 is evaluated statically (0001/0111/0110); the driver's dynamic call op(x,y) has x from A / #0 and y from B / #1 of broadcast(A,B) in order, and the multidirectional mode runs the multidirectional helper; the boolean loop addresses A, B and the output with the same iterator coordinate. R6.T8 float32/float64/int32/int64 (bool) admitted at both positions. R10 Repeat only under extent==1; R23 the per-axis loops are left only when exhausted or with an error; R22 no (tensor.Shape).Eq in the broadcast path; R20 rank equalisation; R3/R21 operands and attribute state untouched. NOT decided: IEEE/wrap-around values, element placement inside gorgonia.",
 		Assumptions: contractBase,
 		Exhaustive:  true,
 	},
@@ -163,29 +163,29 @@ var propDocs = map[string]propDoc{
 		Assumptions: contractBase,
 	},
 	"C10": {
-		Explanation: "R7 unary (17 rows, exhaustive): generic closures: per Dtype case the instance's type argument equals the case's Go type and its body term is math.F(P0) with calls only into package math; Abs/Tanh terms; Sigmoid term Div(1,Add(1,Exp(Neg(x)))); Relu term MaxBetween(x,0); Not truth table 10; PRelu: UnidirectionalBroadcast(x, slope) in that order and, in every kernel instance, the stored element is phi(x, slope*x) with the product computed under x < 0. R18: no tensor.Mul with a comparison-kernel result as operand (positive control BadSelectByMul). R20 scalar wrapper before slice assertions. R6.T8, R3, R21. NOT decided: rounding error bounds, gorgonia's Tanh/Exp/Abs.",
+		Explanation: "R7 unary (17 rows, exhaustive): generic closures: per Dtype case the instance's type argument equals the case's Go type and its body term is math.F(P0) with calls only into package math; Abs/Tanh terms; Sigmoid term Div(1,Add(1,Exp(Neg(x)))); Relu term MaxBetween(x,0); Not truth table 10; PRelu: UnidirectionalBroadcast(x, slope) in that order, every call of a kernel instance receives Data() of both broadcast results (no path around the broadcast) and, in every kernel instance, the stored element is phi(x, slope*x) with the product computed under x < 0 and both factors read at the element's own index. R18: no tensor.Mul with a comparison-kernel result as operand (positive control BadSelectByMul). R20 scalar wrapper before slice assertions. R6.T8, R3, R21. NOT decided: rounding error bounds, gorgonia's Tanh/Exp/Abs.",
 		Assumptions: contractBase,
 		Exhaustive:  true,
 	},
 	"C11": {
-		Explanation: "R14 (AST + go/types, exhaustive): target switch: 10 numeric codes -> createNewBacking[B, Go(code)], 7 non-numeric codes and default -> error; source switch: 10 dtype cases assert []Go(dtype), default -> error, result WithShape(t.Shape()...); element converter out[i] = R(in[i]); alias-flow: every converter instantiation reachable from Cast.Apply is applied to the asserted backing itself; R20: the scalar wrapper covers every source type Cast's gate admits. Constant: name->getter->type table (value_float GetF float32, value_floats []float32, value_int int64, value_ints []int64, value TensorProto), refusals, one attribute exactly. ConstantOfShape: float32(0) default, Len()!=1 refused, non-positive extents refused, dtype from the value tensor. R8; R21 Apply stores into no receiver field (no memoised result); R22 no lax Shape.Eq. NOT decided: nothing structural; conversion semantics are Go's.",
+		Explanation: "R14 (AST + go/types, exhaustive): target switch: 10 numeric codes -> createNewBacking[B, Go(code)], 7 non-numeric codes and default -> error; source switch: 10 dtype cases assert []Go(dtype), default -> error, result WithShape(t.Shape()...); element converter out[i] = R(in[i]); alias-flow: every converter instantiation reachable from Cast.Apply is applied to the asserted backing itself; R20: the scalar wrapper covers every source type Cast's gate admits. Constant: name->getter->type table (value_float GetF float32, value_floats []float32, value_int int64, value_ints []int64, value TensorProto), refusals, one attribute exactly; a tensor backed by an attribute list is given WithShape(len(that list)) (gorgonia infers shape () for a one-element backing). ConstantOfShape: float32(0) default, Len()!=1 refused, non-positive extents refused, dtype from the value tensor. R8; R21 Apply stores into no receiver field (no memoised result); R22 no lax Shape.Eq. NOT decided: nothing structural; conversion semantics are Go's.",
 		Assumptions: []string{"go/types models the program faithfully", "Go's numeric conversions are the C-style conversions the property names (language specification)"},
 		Exhaustive:  true,
 	},
 	"C16": {
-		Explanation: "NOT decided: the property itself (numeric equality of batched and per-sample evaluation) - no static argument in reach bounds it. Decided are structural necessary conditions: R11.K2/K3 Conv's window sample index is the SetAt sample index over x.Shape()[0]; R12.P6 recurrent outputs are reshaped with X.Shape()[0], X.Shape()[1]; R12.P7 the per-step slice cuts axis 0 only; R10 every tensor.Repeat reachable from Conv/Gemm/MatMul/RNN/GRU/LSTM is guarded by extent==1; R21 Apply does not store input-derived state in the operator; R7t Transpose.Apply returns tensor.Transpose(input, perm...) on every success path (no shape-dependent shortcut).",
+		Explanation: "NOT decided: the property itself (numeric equality of batched and per-sample evaluation) - no static argument in reach bounds it. Decided are structural necessary conditions: R11.K2/K3 Conv's window sample index is the SetAt sample index over x.Shape()[0]; R12.P6 recurrent outputs are reshaped with X.Shape()[0], X.Shape()[1]; R12.P7 the per-step slice cuts axis 0 only; R10 every tensor.Repeat reachable from Conv/Gemm/MatMul/RNN/GRU/LSTM is guarded by extent==1; R21 Apply does not store input-derived state in the operator; R7t Transpose.Apply returns tensor.Transpose(input, perm...) on every success path (no shape-dependent shortcut); R22/R23 the broadcast of elementwise operators is not decided by the lax Shape.Eq (a (N,1) activation against a length-C weight is paired element-wise when N == C) and its per-axis loops visit every axis.",
 		Assumptions: contractBase,
 	},
 	"C07": {
-		Explanation: "R9 (forward taint from the frozen axis-source table: Flatten.axis, Squeeze inputs[1], Unsqueeze inputs[1]): R9a every Go-level use (index, slice bound, selection against a dimension index) of the user value is dominated by a rejecting lower AND upper bound on a value of the same taint set - at the use, at every call site passing the tainted value, on the tainted edges of a merge, or on the err==nil edge of a library callee that validates on every success return; ops.AllInRange-style checkers count two-sided unless a bound is an extreme constant. R9b the value used derives from `x + r` computed under `x < 0`, where r is derived (through parameters, closures and cells) from len(Shape()), Dims() or Shape()[k] of a tensor. R9c axis sets are sorted and a duplicate returns an error. R3 (E2) clone-before-Reshape: no Reshape on borrowed storage in the five operators. R20 a Data() value asserted to a slice type passes the scalar wrapper first. NOT decided: gorgonia's Reshape contract (row-major order kept, count mismatch rejected), processShape's -1 arithmetic.",
+		Explanation: "R9 (forward taint from the frozen axis-source table: Flatten.axis, Squeeze inputs[1], Unsqueeze inputs[1]): R9a every Go-level use (index, slice bound, selection against a dimension index) of the user value is dominated by a rejecting lower AND upper bound on a value of the same taint set - at the use, at every call site passing the tainted value, on the tainted edges of a merge, or on the err==nil edge of a library callee that validates on every success return; ops.AllInRange-style checkers count two-sided unless a bound is an extreme constant. R9b the value used derives from `x + r` computed under `x < 0`, where r is derived (through parameters, closures and cells) from len(Shape()), Dims() or Shape()[k] of a tensor. R9c axis sets are sorted and a duplicate returns an error. R3 (E2) clone-before-Reshape: no Reshape on borrowed storage in the five operators. R20 a Data() value asserted to a slice type passes the scalar wrapper first. R22 no lax (tensor.Shape).Eq reachable from the five operators (a "shape already right" shortcut through it skips (n) <-> (n,1) reshapes). NOT decided: gorgonia's Reshape contract (row-major order kept, count mismatch rejected), processShape's -1 arithmetic.",
 		Assumptions: contractBase,
 	},
 	"C08": {
-		Explanation: "R9a/R9b as for C07 over the sources Concat.axis, Gather.axis, Gather inputs[1] (index data), Slice inputs[3], Transpose.perm (perm is exempt from R9b: no negative spelling), with axis contracts for gorgonia callees (Concat validates both sides, Transpose validates permutations, Slice/At validate ranges; a validating callee only counts when its error is handled). R10 every tensor.Repeat reachable from Expand.Apply is dominated by extent==1 of the repeated tensor at the repeated axis. R19 the view returned by Tensor.Slice is reshaped before Slice.Apply returns it. R20 Data() passes the scalar wrapper before slice assertions. R3 operands not modified. R7t Transpose.Apply returns tensor.Transpose(input, perm...) on every success path. NOT decided: ONNX index formulas, clamping, negative steps, data movement inside gorgonia.",
+		Explanation: "R9a/R9b as for C07 over the sources Concat.axis, Gather.axis, Gather inputs[1] (index data), Slice inputs[3], Transpose.perm (perm is exempt from R9b: no negative spelling), with axis contracts for gorgonia callees (Concat validates both sides, Transpose validates permutations, Slice/At validate ranges; a validating callee only counts when its error is handled). R10 every tensor.Repeat reachable from Expand.Apply is dominated by extent==1 of the repeated tensor at the repeated axis. R19 the view returned by Tensor.Slice is reshaped before Slice.Apply returns it. R20 Data() passes the scalar wrapper before slice assertions. R3 operands not modified. R7t Transpose.Apply returns tensor.Transpose(input, perm...) on every success path; Expand.Apply returns the first result of the shared multidirectional broadcast helper applied to (input, fresh tensor of the requested shape). R22 no lax Shape.Eq reachable from the five operators except the audited ops.PairwiseAssign. NOT decided: ONNX index formulas, clamping, negative steps, data movement inside gorgonia.",
 		Assumptions: contractBase,
 	},
 	"C09": {
-		Explanation: "R9b over ArgMax.axis, ReduceMax.axes, ReduceMin.axes, Softmax.axis, LogSoftmax.axis with per-callee contracts (SoftMax/LogSoftMax resolve negative axes themselves; Argmax/Max/Min do not and treat -1 as all axes); R9a instances are notes. R20: the Reshape re-inserting reduced axes is control-dependent on the keepdims field (how the int64 attribute becomes the bool is not pinned); ArgMax's result backing is []int64; Data() of the reduced result passes the scalar wrapper. R3 operands not modified. R7t Softmax/LogSoftmax.Apply return the single gorgonia call on (input, normalised axis) on every success path. NOT decided: softmax numerics (gorgonia's SoftMax is not max-shifted and yields NaN for very large inputs - trusted base), ties/NaN in ArgMax, 'all axes when none given'.",
+		Explanation: "R9b over ArgMax.axis, ReduceMax.axes, ReduceMin.axes, Softmax.axis, LogSoftmax.axis with per-callee contracts (SoftMax/LogSoftMax resolve negative axes themselves; Argmax/Max/Min do not and treat -1 as all axes); R9a instances are notes. R20: the Reshape re-inserting reduced axes is control-dependent on the keepdims field (how the int64 attribute becomes the bool is not pinned); ArgMax's result backing is []int64; Data() of the reduced result passes the scalar wrapper. R3 operands not modified. R9d ReduceMax/ReduceMin hand gorgonia one list entry per requested axis (make(len(axes)) filled at the range index in every iteration, or an unconditional append): a filtered list changes which axes disappear and an empty list means all axes. R22 no lax Shape.Eq. R7t Softmax/LogSoftmax.Apply return the single gorgonia call on (input, normalised axis) on every success path. NOT decided: softmax numerics (gorgonia's SoftMax is not max-shifted and yields NaN for very large inputs - trusted base), ties/NaN in ArgMax, 'all axes when none given'.",
 		Assumptions: contractBase,
 	},
 	"C14": {
@@ -218,7 +218,7 @@ var propDocs = map[string]propDoc{
 		Assumptions: contractBase,
 	},
 	"C15": {
-		Explanation: "Static table evaluation over every registered operator (exhaustive): T1 arity bounds 0<=min<=max evaluated from the getter bodies; T2 len(constraints)>=max and rows non-empty (otherwise the generic gate indexes out of range); T3 ValidateInputs delegates exactly once to the generic gate with (receiver, inputs) and only adds error returns; T4 every constant index into inputs in Apply and helpers is < max; T5 every use of an optional input other than a nil test is dominated by its non-nil edge; T6 Concat's dynamic arity is established from len(inputs) before the delegate call; T7 the generic gate's stage order, counter semantics (success iff min<=n<=max, pad length = max), nil-only padding, same-index dtype lookup; T8 dtypes the property statements require are admitted; R2 registry completeness against the 55 pinned names and against the implementing types, constructor freshness (new heap value per lookup, no shared package state), getter hit/miss paths (miss => error wrapping ErrUnsupportedOperator). NOT decided: behaviour when nil is supplied at a required position; that gorgonia's Dtype() reports the element type.",
+		Explanation: "Static table evaluation over every registered operator (exhaustive): T1 arity bounds 0<=min<=max evaluated from the getter bodies; T2 len(constraints)>=max and rows non-empty (otherwise the generic gate indexes out of range); T3 ValidateInputs delegates exactly once to the generic gate with (receiver, inputs) and only adds error returns; T4 every constant index into inputs in Apply and helpers is < max; T5 every use of an optional input other than a nil test is dominated by its non-nil edge; T6 Concat's dynamic arity is established from len(inputs) before the delegate call; T7 the generic gate's stage order, counter semantics (success iff min<=n<=max, pad length = max), nil-only padding, same-index dtype lookup, and the dtype loop is left only when every input was looked at or with an error; T8 dtypes the property statements require are admitted; R2 registry completeness against the 55 pinned names and against the implementing types, constructor freshness (new heap value per lookup, no shared package state), getter hit/miss paths (miss => error wrapping ErrUnsupportedOperator). NOT decided: behaviour when nil is supplied at a required position; that gorgonia's Dtype() reports the element type.",
 		Assumptions: []string{"go/types and go/ssa model the program faithfully", "package-level Min*/Max* values are never reassigned (checked by R1 under C01/C02/C17)", "tensor.Dtype values named in constraints are gorgonia's package variables"},
 		Exhaustive:  true,
 	},
